@@ -902,6 +902,11 @@ class FV:
     def __neg__(self):
         return FV(z3.fpNeg(self.e))
 
+    def __pow__(self, o):
+        if isinstance(o, (int, np.integer)) and int(o) == 2:
+            return FV(z3.fpMul(_RNE, self.e, self.e))       # pow(x, 2) is correctly rounded: the rounded product
+        raise Unsupported('power of a symbolic double other than the square')
+
     def _to_int(self, mode):
         """the integer fpRoundToIntegral(mode, self): one n-ary decision over its feasible values (see Ctx.choose_value)"""
         t = z3.fpRoundToIntegral(mode, self.e)
